@@ -69,6 +69,11 @@ var (
 	ErrValueExceedsAmt = errors.New("attempted value exceeds payment " +
 		"amount")
 
+	// ErrZeroAmountShard is returned if we try to register a shard of a
+	// split payment that delivers nothing to the receiver.
+	ErrZeroAmountShard = errors.New("shard delivers no amount to the " +
+		"receiver")
+
 	// ErrNonMPPayment is returned if we try to register an MPP attempt for
 	// a payment that already has a non-MPP attempt registered.
 	ErrNonMPPayment = errors.New("payment has non-MPP attempts")
